@@ -33,11 +33,11 @@ Main source files: {', '.join(p['anchors']['files'])}
 Mechanisms that implement it: {mech}
 
 {avoid}
-TASK. Produce {"FOUR" if rnd == 1 else ("TWO" if rnd == 2 else "ONE")} independent, BEHAVIOUR-PRESERVING refactoring{"" if rnd == 3 else "s"} ({"R1..R4" if rnd == 1 else ("R5 and R6" if rnd == 2 else "R7; make it a substantial one, touching the central functions of the property")}) of the functions/classes that implement this property — the kind of clean-up a maintainer would merge: each must leave the observable behaviour of every public API exactly as it is (same results, same exceptions, same ordering of effects and call-outs, same behaviour under re-entrancy and error paths), so the property above still holds and all existing tests still pass. Each refactoring should be substantial enough to change the SHAPE of the code the property depends on (not just whitespace or comments), and they should differ in style. Ideas: rename locals / parameters of private helpers; extract a private helper method or inline one; turn nested if/else into guard clauses with early returns (or the reverse); invert a condition and swap the branches; rewrite `a > b` as `b < a` / `not a <= b`; replace a flag variable by `while ... else` or by an early return; introduce named temporaries for sub-expressions; replace `list.pop(0)` on a private list by `collections.deque.popleft()` (changing the constructor accordingly) where the list is not exposed; replace a loop by a comprehension or the reverse; reorder statements that are provably independent; replace chained `.replace()` calls by a loop over a constant tuple; use `try/finally` vs context manager; replace string formatting style. Do NOT change public names, signatures, class attributes that tests or subclasses rely on, log messages that tests assert on, or anything semantic.
+TASK. Produce {"FOUR" if rnd == 1 else ("TWO" if rnd == 2 else "ONE")} independent, BEHAVIOUR-PRESERVING refactoring{"" if rnd >= 3 else "s"} ({"R1..R4" if rnd == 1 else ("R5 and R6" if rnd == 2 else f"R{rnd + 4}; make it a substantial one, touching the central functions of the property")}) of the functions/classes that implement this property — the kind of clean-up a maintainer would merge: each must leave the observable behaviour of every public API exactly as it is (same results, same exceptions, same ordering of effects and call-outs, same behaviour under re-entrancy and error paths), so the property above still holds and all existing tests still pass. Each refactoring should be substantial enough to change the SHAPE of the code the property depends on (not just whitespace or comments), and they should differ in style. Ideas: rename locals / parameters of private helpers; extract a private helper method or inline one; turn nested if/else into guard clauses with early returns (or the reverse); invert a condition and swap the branches; rewrite `a > b` as `b < a` / `not a <= b`; replace a flag variable by `while ... else` or by an early return; introduce named temporaries for sub-expressions; replace `list.pop(0)` on a private list by `collections.deque.popleft()` (changing the constructor accordingly) where the list is not exposed; replace a loop by a comprehension or the reverse; reorder statements that are provably independent; replace chained `.replace()` calls by a loop over a constant tuple; use `try/finally` vs context manager; replace string formatting style. Do NOT change public names, signatures, class attributes that tests or subclasses rely on, log messages that tests assert on, or anything semantic.
 
 For each refactoring you must convince yourself it is behaviour-preserving: run every test module that exercises the files you changed (list exactly what you ran; all must pass as on the unmodified tree), and write a small `equiv.py` that drives the old behaviour-relevant scenarios (normal paths, boundary values, error paths, re-entrant use where relevant) and prints a deterministic transcript; the transcript must be IDENTICAL on the unmodified worktree and with the refactoring applied (verify by running both and diffing).
 
-DELIVERABLES: {out}/{"R1/ … " + out + "/R4/" if rnd == 1 else ("R5/ and " + out + "/R6/" if rnd == 2 else "R7/")}, each containing
+DELIVERABLES: {out}/{"R1/ … " + out + "/R4/" if rnd == 1 else ("R5/ and " + out + "/R6/" if rnd == 2 else f"R{rnd + 4}/")}, each containing
   patch.diff  (output of `git diff` with only that refactoring applied; must apply with `git apply` to a clean checkout)
   equiv.py    (the transcript script)
   meta.json   {{"property": "{pid}", "kind": "refactor", "summary": "<what was refactored and how>", "why_equivalent": "<argument>", "files": ["src/twisted/..."], "tests": ["src/twisted/.../test_x.py", ...], "ran": ["<commands and outcomes>"]}}
